@@ -29,6 +29,7 @@ def gen_case(rng, tier):
 def impl_fn(case):
     m = impl.build_uni(case)
     m.load_patient_data(uni_table(case))
+    impl.prime_with_flipped_kinds(m, case, lambda mm: (mm.likelihood(), mm.diagnosis_matrix(case["query_t"])))
     out = {}
     def call(key, fn):
         try:
